@@ -4,6 +4,7 @@ import (
 	"bytes"
 	"fmt"
 	"net/http"
+	"os"
 	"strings"
 	"sync/atomic"
 	"testing"
@@ -403,11 +404,17 @@ func labelsFor(lc labCfg, ec *exchangeCase, ob observed) (labels []string, nontr
 func runLabCase(rt *rapid.T, sub *lab.SubCheck, withPlugin bool) {
 	n := rapid.IntRange(1, 6).Draw(rt, "exchanges")
 	lc := genLab(rt, withPlugin, n)
-	l, err := lab.NewSocketLab(lc.Strategy, lab.SocketOpts{Backends: lc.Backends, Mutate: lc.mutate})
+	// one lab in eight (of those that do not eject backends by hand) has the real helios binary as
+	// its front: cmd/helios's own composition, where the ID middleware is put outermost
+	binary := os.Getenv("VERIF_HELIOS") != "" && lc.EjectAt < 0 && rapid.IntRange(0, 7).Draw(rt, "binary_front") == 0
+	l, err := lab.NewSocketLab(lc.Strategy, lab.SocketOpts{Backends: lc.Backends, Mutate: lc.mutate, Binary: binary})
 	if err != nil {
 		rt.Fatalf("harness: %v", err)
 	}
 	defer l.Close()
+	if binary {
+		sub.Count("labs-with-helios-binary-front", 1)
+	}
 	c := &conn{}
 	defer c.drop()
 	st := &labState{usedClients: map[string]bool{}}
